@@ -37,3 +37,21 @@ Definition check_plan (ivs : list Z) (start end_ qi : Z) (auto : bool) (probes :
        (Z.rem (o_start o) (o_storage o) =? 0) && (Z.rem (o_end o) (o_storage o) =? 0) &&
        forallb (fun t => (o_start o <=? truncate t (o_storage o)) && (truncate t (o_storage o) <=? o_end o)) probes
     then 0%nat else 1%nat)).
+
+(* ---- the broker's grouping of a batch by family (series/metric/row_broker.go BrokerBatchShardFamilyIterator): the
+   timestamps of a batch in arrival order, the groups delivered (family time, timestamps) ---- *)
+Fixpoint countz (x : Z) (l : list Z) : nat := match l with [] => 0%nat | y :: l' => Nat.add (if Z.eqb x y then 1%nat else 0%nat) (countz x l') end.
+Definition check_broker (off : Z) (iv : Z) (tss : list Z) (groups : list (Z * list Z)) : nat * nat :=
+  let t := interval_type iv in
+  let delivered := flat_map snd groups in
+  (* every row in the group of its own family, every row delivered exactly once *)
+  let ok := forallb (fun g => forallb (fun ts => family_time off t ts =? fst g) (snd g)) groups &&
+            forallb (fun ts => Nat.eqb (countz ts delivered) (countz ts tss)) tss &&
+            Nat.eqb (length delivered) (length tss) in
+  (* the implementation's own family ranges: a group's family time is at or below each member and the members of two
+     groups with different family times are on different sides of the later family time *)
+  let orc := forallb (fun g => forallb (fun ts => fst g <=? ts) (snd g)) groups &&
+             forallb (fun g => forallb (fun h => (fst g =? fst h) || (fst h <? fst g) ||
+                                                 forallb (fun ts => ts <? fst h) (snd g)) groups) groups &&
+             forallb (fun ts => Nat.eqb (countz ts delivered) (countz ts tss)) tss in
+  ((if ok then 0%nat else 1%nat), (if orc then 0%nat else 1%nat)).
